@@ -347,6 +347,26 @@ def reference_pass(eqs: Sequence[Eq], data: Dict[str, np.ndarray], t: int) -> Di
 # --------------------------------------------------------------------------------------------------
 # generation
 # --------------------------------------------------------------------------------------------------
+def _has_var(e) -> bool:
+    return bool(terms(e)) or isinstance(e, Verb)
+
+
+def _risky_constant(e) -> bool:
+    if isinstance(e, Call):
+        return any(not _has_var(a) for a in e.args) or any(_risky_constant(a) for a in e.args)
+    if isinstance(e, Bin):
+        if e.op in ('/', '**') and not isinstance(e.r, Num) and not _has_var(e.r):
+            return True
+        if e.op == '**' and not _has_var(e.l) and not isinstance(e.l, Num):
+            return True
+        return _risky_constant(e.l) or _risky_constant(e.r)
+    if isinstance(e, (Neg, Paren)):
+        return _risky_constant(e.x)
+    if isinstance(e, Cond):
+        return any(_risky_constant(x) for x in (e.a, e.b, e.x, e.y))
+    return False
+
+
 class Gen:
     def __init__(self, rnd: random.Random, *, max_depth: int = 3, allow_cond: bool = True, allow_pow: bool = True,
                  names: Optional[Sequence[str]] = None, fortran_subset: bool = False):
@@ -367,6 +387,15 @@ class Gen:
         return Var('err', self.rnd.choice(ERROR_NAMES), k if self.rnd.random() < 0.2 else 0)
 
     def expr(self, depth: int = 0):
+        # Literal-only sub-expressions that can warn or fail when evaluated (log(-1.0), 2 / (0.5 - 0.5)) are kept out of the grammar:
+        # fsic's optional syntax check executes the statement (recorded finding F13, reported by C13), which would reject them.
+        for _ in range(50):
+            e = self._expr(depth)
+            if not _risky_constant(e):
+                return e
+        return self.var()
+
+    def _expr(self, depth: int = 0):
         r = self.rnd.random()
         if depth >= self.max_depth or r < 0.3:
             return self.var() if self.rnd.random() < 0.8 else Num(self.rnd.choice(NUMS))
@@ -427,3 +456,76 @@ def small_programs() -> List[List[Eq]]:
         [],
     ]
     return progs
+
+
+# --------------------------------------------------------------------------------------------------
+# text -> tree (used to replay stored cases; independent of fsic: Python's own parser after bracket substitution)
+# --------------------------------------------------------------------------------------------------
+def parse_script(script: str) -> List[Eq]:
+    import ast as _ast
+    import re as _re
+    verb: List[str] = []
+
+    def v_sub(m):
+        verb.append(m.group(1))
+        return f'V__{len(verb) - 1}'
+    # strip comments, join parenthesised continuation lines
+    lines = [ln.split('#', 1)[0].rstrip() for ln in script.splitlines()]
+    stmts, buf, depth = [], [], 0
+    for ln in lines:
+        if not ln.strip() and depth == 0:
+            continue
+        buf.append(ln)
+        depth += ln.count('(') - ln.count(')')
+        if depth == 0:
+            stmts.append(' '.join(buf))
+            buf = []
+    ops = {_ast.Add: '+', _ast.Sub: '-', _ast.Mult: '*', _ast.Div: '/', _ast.Pow: '**'}
+    cmps = {_ast.Lt: '<', _ast.LtE: '<=', _ast.Gt: '>', _ast.GtE: '>=', _ast.Eq: '==', _ast.NotEq: '!='}
+
+    def mk(name, k):
+        if name.startswith('P__'):
+            return Var('param', name[3:], k)
+        if name.startswith('E__'):
+            return Var('err', name[3:], k)
+        return Var('var', name, k)
+
+    def num_text(n):
+        return repr(n.value)
+
+    def conv(n):
+        if isinstance(n, _ast.Name):
+            if n.id.startswith('V__'):
+                return Verb(verb[int(n.id[3:])])
+            return mk(n.id, 0)
+        if isinstance(n, _ast.Subscript):
+            k = n.slice
+            if isinstance(k, _ast.UnaryOp):
+                kv = -k.operand.value if isinstance(k.op, _ast.USub) else k.operand.value
+            else:
+                kv = k.value
+            return mk(n.value.id, kv)
+        if isinstance(n, _ast.Constant):
+            return Num(num_text(n))
+        if isinstance(n, _ast.BinOp):
+            return Bin(ops[type(n.op)], conv(n.left), conv(n.right))
+        if isinstance(n, _ast.UnaryOp):
+            return Neg(conv(n.operand))
+        if isinstance(n, _ast.Call):
+            f = n.func.id if isinstance(n.func, _ast.Name) else 'np.' + n.func.attr
+            return Call(f, tuple(conv(a) for a in n.args))
+        if isinstance(n, _ast.IfExp):
+            return Cond(conv(n.test.left), cmps[type(n.test.ops[0])], conv(n.test.comparators[0]), conv(n.body), conv(n.orelse))
+        raise TypeError(n)
+    out = []
+    for st in stmts:
+        py = _re.sub(r'`([^`]+)`', v_sub, st)
+        py = _re.sub(r'\{\s*(\w+)\s*\}', r'P__\1', py)
+        py = _re.sub(r'<\s*(\w+)\s*>', r'E__\1', py)
+        py = py.strip()
+        if py.startswith('(') and py.endswith(')') and '=' in py and not _re.match(r'^\([^=]*\)\s*=', py):
+            py = py[1:-1]
+        lhs, rhs = py.split('=', 1) if not _re.search(r'[<>=!]=', py.split('=', 1)[0] + '=') else py.split('=', 1)
+        tree = _ast.parse(f'{lhs.strip()} = {rhs.strip()}').body[0]
+        out.append(Eq(conv(tree.targets[0]), conv(tree.value)))
+    return out
